@@ -78,14 +78,28 @@ Definition rsp_of (x : bexchange) : rsp :=
 Definition enc_field (f : bytes * bytes) : bytes * bytes := (bstr_item (fst f), bstr_item (snd f)).
 Definition item_of (x : bexchange) : bytes := rsp_bytes (rsp_of x).
 
+(* the tests Response.EncodeHeader makes before it encodes: a three-digit status,
+   ASCII names not starting with ':', ASCII comma-joined values *)
+Definition erh_guard (st : Z) (h : headers) : bool :=
+  ((st <? 100) || (999 <? st))%Z || negb (forallb hdr_writable_b h).
+
 Lemma erh_eq (st : Z) (h : headers) :
-  encode_response_header st h = enc_map (map enc_field (raw_fields st h)).
+  encode_response_header st h =
+  if erh_guard st h then Err else enc_map (map enc_field (raw_fields st h)).
 Proof.
-  unfold encode_response_header, raw_fields. cbn [map]. f_equal. f_equal.
+  unfold encode_response_header, erh_guard, raw_fields.
+  destruct ((st <? 100) || (999 <? st))%Z; cbn [orb]; [reflexivity|].
+  destruct (negb (forallb hdr_writable_b h)); [reflexivity|].
+  cbn [map]. f_equal. f_equal.
   - unfold enc_field, status_name. cbn [fst snd]. rewrite !enc_bytes_item. reflexivity.
   - rewrite map_map. apply map_ext. intros nv. unfold enc_field, fold_hdr. cbn [fst snd].
     rewrite !enc_bytes_item. reflexivity.
 Qed.
+
+Lemma erh_ok_guard (st : Z) (h : headers) (hc : bytes) :
+  encode_response_header st h = Ok hc ->
+  erh_guard st h = false /\ enc_map (map enc_field (raw_fields st h)) = Ok hc.
+Proof. rewrite erh_eq. destruct (erh_guard st h); [discriminate|auto]. Qed.
 
 Lemma sort_enc_fields (l : list (bytes * bytes)) :
   sort_entries (map enc_field l) = map enc_field (isort field_ltb l).
@@ -96,7 +110,7 @@ Lemma erh_ok (st : Z) (h : headers) (hc : bytes) :
   hc = hmap_bytes (rsp_fields st h) /\
   StronglySorted (fun a b => blt (field_key a) (field_key b)) (rsp_fields st h).
 Proof.
-  rewrite erh_eq. intros H. apply enc_map_ok in H. destruct H as [E S].
+  intros H. apply erh_ok_guard in H. destruct H as [_ H]. apply enc_map_ok in H. destruct H as [E S].
   rewrite sort_enc_fields in E, S. split.
   - rewrite E. unfold hmap_bytes, rsp_fields. rewrite enc_map_item, lenN_map, isort_lenN.
     f_equal. rewrite flat_map_map. reflexivity.
@@ -105,7 +119,7 @@ Qed.
 
 Lemma erh_cases (st : Z) (h : headers) :
   encode_response_header st h = Err \/ exists hc, encode_response_header st h = Ok hc.
-Proof. rewrite erh_eq. apply enc_map_ok_or_err. Qed.
+Proof. rewrite erh_eq. destruct (erh_guard st h); [left; reflexivity|apply enc_map_ok_or_err]. Qed.
 
 Lemma rsp_fields_perm (st : Z) (h : headers) : Permutation (rsp_fields st h) (raw_fields st h).
 Proof. apply isort_perm. Qed.
@@ -158,35 +172,60 @@ Fixpoint mk_ients (xs : list bexchange) (off : N) : list ientry :=
       :: mk_ients t (off + lenN (item_of x))
   end.
 
+(* checkURL on an exchange URL: valid UTF-8, parses, no fragment, no credentials *)
+Definition url_writable (u : bytes) : bool := utf8_valid u && fst (index_url_ok u).
+
+Lemma add_exchanges_S (x : bexchange) (t : list bexchange) (buf : bytes) (acc : list ientry) :
+  add_exchanges (x :: t) buf acc =
+  let* item := encode_response x in
+  if negb (url_writable (bx_url x)) then Err else
+  add_exchanges t (buf ++ item)
+    ({| ie_url := bx_url x;
+        ie_variants := join_comma (hdr_lookup (bx_hdr x) (canonical_key (s2b "variants")));
+        ie_vkey := join_comma (hdr_lookup (bx_hdr x) (canonical_key (s2b "variant-key")));
+        ie_off := lenN buf; ie_len := lenN item |} :: acc).
+Proof.
+  cbn [add_exchanges]. unfold url_writable.
+  destruct (encode_response x); cbn [bind]; try reflexivity.
+  destruct (utf8_valid (bx_url x)); cbn [negb andb]; reflexivity.
+Qed.
+
 Lemma add_exchanges_ok (xs : list bexchange) : forall buf acc buf' ents,
   add_exchanges xs buf acc = Ok (buf', ents) ->
   buf' = buf ++ flat_map item_of xs /\ ents = rev acc ++ mk_ients xs (lenN buf)
-  /\ Forall (fun x => RspOK (rsp_of x)) xs.
+  /\ Forall (fun x => RspOK (rsp_of x)) xs
+  /\ Forall (fun x => url_writable (bx_url x) = true) xs.
 Proof.
-  induction xs as [|x t IH]; intros buf acc buf' ents H; cbn [add_exchanges] in H.
-  - inversion H; subst. cbn [flat_map mk_ients]. rewrite !app_nil_r. repeat split. constructor.
-  - apply bindR_ok in H. destruct H as [it [Hi H]].
+  induction xs as [|x t IH]; intros buf acc buf' ents H.
+  - cbn [add_exchanges] in H. inversion H; subst. cbn [flat_map mk_ients]. rewrite !app_nil_r. repeat split; constructor.
+  - rewrite add_exchanges_S in H. apply bindR_ok in H. destruct H as [it [Hi H]].
     apply encode_response_ok in Hi. destruct Hi as [Ei Ri]. subst it.
-    apply IH in H. destruct H as [E1 [E2 F]]. cbn [flat_map mk_ients rev] in *.
+    destruct (url_writable (bx_url x)) eqn:U; cbn [negb] in H; [|discriminate].
+    apply IH in H. destruct H as [E1 [E2 [F G]]]. cbn [flat_map mk_ients rev] in *.
     rewrite <- app_assoc in E1, E2. cbn [app] in E2. rewrite lenN_app in E2.
-    split; [exact E1|]. split; [exact E2|]. constructor; assumption.
+    split; [exact E1|]. split; [exact E2|]. split; constructor; assumption.
 Qed.
 
-(* the first exchange whose header map has a duplicate name decides *)
+(* the first exchange whose header map is refused (status, names, values, a
+   duplicate name) or whose URL is refused decides; both are plain errors *)
 Lemma add_exchanges_cases (xs : list bexchange) : forall buf acc,
-  (Exists (fun x => encode_response_header (bx_status x) (bx_hdr x) = Err) xs
+  (Exists (fun x => encode_response_header (bx_status x) (bx_hdr x) = Err
+                    \/ url_writable (bx_url x) = false) xs
    /\ add_exchanges xs buf acc = Err)
-  \/ (Forall (fun x => encode_response x = Ok (item_of x)) xs
+  \/ (Forall (fun x => encode_response x = Ok (item_of x)
+                       /\ url_writable (bx_url x) = true) xs
       /\ add_exchanges xs buf acc = Ok (buf ++ flat_map item_of xs, rev acc ++ mk_ients xs (lenN buf))).
 Proof.
-  induction xs as [|x t IH]; intros buf acc; cbn [add_exchanges].
-  - right. split; [constructor|]. cbn [flat_map mk_ients]. rewrite !app_nil_r. reflexivity.
-  - destruct (encode_response_cases x) as [[E1 E2]|E].
-    + left. split; [left; exact E1|]. rewrite E2. reflexivity.
+  induction xs as [|x t IH]; intros buf acc.
+  - cbn [add_exchanges]. right. split; [constructor|]. cbn [flat_map mk_ients]. rewrite !app_nil_r. reflexivity.
+  - rewrite add_exchanges_S. destruct (encode_response_cases x) as [[E1 E2]|E].
+    + left. split; [left; left; exact E1|]. rewrite E2. reflexivity.
     + rewrite E. cbn [bind].
+      destruct (url_writable (bx_url x)) eqn:U; cbn [negb].
+      2:{ left. split; [left; right; exact U|reflexivity]. }
       match goal with |- context [add_exchanges t ?b ?a] => destruct (IH b a) as [[X Y]|[X Y]] end.
       * left. split; [right; exact X|exact Y].
-      * right. split; [constructor; assumption|]. rewrite Y. cbn [flat_map mk_ients rev].
+      * right. split; [constructor; [split; [exact E|exact U]|assumption]|]. rewrite Y. cbn [flat_map mk_ients rev].
         rewrite <- !app_assoc, lenN_app. reflexivity.
 Qed.
 
